@@ -432,7 +432,7 @@ func (w *World) lookupRule(r *Report, fi *FuncInfo, maxW int64) {
 	})
 	for _, rt := range cs.FS.Rets {
 		if rt.IsErr && len(rt.Vals) == 2 {
-			if _, isNil := rt.Vals[0].(NilV); isNil && okName != "" && strings.Contains(rt.Guard, okName) {
+			if _, isNil := rt.Vals[0].(NilV); isNil && (strings.Contains(rt.Guard, "!(haskey(") || okName != "" && strings.Contains(rt.Guard, okName)) {
 				okErr = true
 			}
 		}
